@@ -26,11 +26,13 @@ import (
 //	load <map> <kinds> [<ctor> [<entity>]]
 //	                              two tracked entities 0 and 1 are created from the same loaded state
 //	                              <map>    = nil | - | a:1,b:2
-//	                              <kinds>  = - | A,B            (exactly one kind for relationships)
+//	                              <kinds>  = - | A,B | A,B,A (duplicates) | A! (a foreign Kind implementation named A)
+//	                                         (exactly one kind for relationships)
 //	                              <ctor>   = as (AsProperties(map[string]any), default; NewProperties() for nil) | new
 //	                                         (NewProperties) | red (NewPropertiesRed) | sym (AsProperties(map[graph.String]any))
 //	                                         | pm (AsProperties(graph.PropertyMap))
 //	                              <entity> = node (NewNode, default) | prep (PrepareNode, nil kinds interleaved) |
+//	                                         shared (both NewNode calls get the SAME kinds slice) |
 //	                                         rel (NewRelationship) | prel (PrepareRelationship)
 //	set e k v | setall e <map> | del e k          (setall nil = SetAll(nil map))
 //	get e k | gd e k d | gf e k d k2,k3 | ex e k | len e | keys e
@@ -40,6 +42,11 @@ import (
 //	merge e f                     e.Merge(f)                         (Node.Merge: kinds, then Properties.Merge; nodes only)
 //	rmerge e f                    e.Merge(f)                         (Relationship.Merge; relationships only)
 //	addk e A,_,B | delk e A,B     Node.AddKinds / Node.DeleteKinds   (_ = nil Kind, AddKinds only; nodes only)
+//	hold e                        a caller keeps the current header `ks := n.Kinds`; from then on the answer carries a
+//	                              fourth segment `H=<contents of every kept header, re-read now>`          (nodes only)
+//	json e                        e = unmarshal(marshal(e)) with encoding/json (a node inside a graph.NodeSet, a
+//	                              relationship's Properties on their own)
+//	strip e a,b | strip e -       Node.StripAllPropertiesExcept(keys...)                     (nodes only)
 //	drv e                         what the pg batch update builders send for entity e (nodes only):
 //	                              NodeUpdateParameters.Append and LargeNodeUpdateRows.Append must agree; answer
 //	                              `u kinds=<ids> dkinds=<ids> props=<map> dprops=<set>`
@@ -135,6 +142,10 @@ func c12ParseKinds(tok string, allowNil bool) ([]graph.Kind, bool) {
 			ks = append(ks, nil)
 			continue
 		}
+		if len(k) == 2 && k[1] == '!' && k[0] >= 'A' && k[0] <= 'Z' {
+			ks = append(ks, c12OtherKind(k[:1])) // a foreign Kind implementation with the same String()
+			continue
+		}
 		if len(k) != 1 || k[0] < 'A' || k[0] > 'Z' {
 			return nil, false
 		}
@@ -184,6 +195,8 @@ func c12KindsStr(ks graph.Kinds) string {
 	for i, k := range ks {
 		if k == nil {
 			out[i] = "_"
+		} else if _, foreign := k.(c12OtherKind); foreign {
+			out[i] = k.String() + "!"
 		} else {
 			out[i] = k.String()
 		}
@@ -220,6 +233,7 @@ type c12Runner struct {
 	// caller-side kind slices handed to NewNode (aliasing information, DESIGN §4 C12 "not verified")
 	callerKinds [2][]graph.Kind
 	callerCopy  [2][]graph.Kind
+	held        []graph.Kinds
 	// consumers (drivers/pg batch builders)
 	sm  *pg.SchemaManager
 	enc pg.Int2ArrayEncoder
@@ -260,7 +274,16 @@ func (r *c12Runner) dump(e int) string {
 }
 
 func (r *c12Runner) withDump(ret string) string {
-	return ret + " | " + r.dump(0) + " | " + r.dump(1)
+	out := ret + " | " + r.dump(0) + " | " + r.dump(1)
+	if len(r.held) > 0 {
+		// headers a caller kept (`ks := n.Kinds`), re-read after every later operation
+		hs := make([]string, len(r.held))
+		for i, h := range r.held {
+			hs[i] = c12KindsStr(h)
+		}
+		out += " | H=" + strings.Join(hs, ";")
+	}
+	return out
 }
 
 func has(m map[string]struct{}, k string) bool { _, ok := m[k]; return ok }
@@ -368,11 +391,25 @@ func (r *c12Runner) load(t []string) string {
 	if r.isRel && len(ks) != 1 {
 		return "bad-op"
 	}
+	r.held = nil
+	// one caller slice handed to BOTH NewNode calls (entity "shared"): the two nodes alias one backing array
+	var sharedKinds []graph.Kind
+	if len(ks) > 0 {
+		sharedKinds = make([]graph.Kind, len(ks))
+		copy(sharedKinds, ks)
+	}
 	for i := 0; i < 2; i++ {
 		p, _ := c12NewProps(t[1], ctor) // a fresh map per entity
 		switch entity {
+		case "shared":
+			r.n[i] = graph.NewNode(graph.ID(i+1), p, sharedKinds...)
+			r.callerKinds[i], r.callerCopy[i] = nil, nil
 		case "node", "prep":
-			own := append([]graph.Kind(nil), ks...)
+			var own []graph.Kind // exact capacity: len(ks)
+			if len(ks) > 0 {
+				own = make([]graph.Kind, len(ks))
+				copy(own, ks)
+			}
 			r.callerKinds[i] = own
 			r.callerCopy[i] = append([]graph.Kind(nil), own...)
 			if entity == "node" {
@@ -545,6 +582,15 @@ func (r *c12Runner) Step(t []string, raw string) string {
 		r.countPropsMerge(p, r.props(f))
 		p.Merge(r.props(f))
 		return r.withDump("ok")
+	case t[0] == "hold" && len(t) == 2:
+		if r.isRel {
+			return "bad-op"
+		}
+		r.held = append(r.held, r.n[e].Kinds)
+		st.Inc("branch.hold")
+		return r.withDump("ok")
+	case t[0] == "json" && len(t) == 2:
+		return r.withDump(r.jsonRoundTrip(e))
 	case t[0] == "rmerge" && len(t) == 3:
 		f, ok := r.ent(t[2])
 		if !ok || !r.isRel {
@@ -634,8 +680,66 @@ func (r *c12Runner) Step(t []string, raw string) string {
 		return r.withDump("ok")
 	case t[0] == "drv" && len(t) == 2:
 		return r.withDump(r.drv(n))
+	case t[0] == "strip" && len(t) == 3:
+		var keep []string
+		if t[2] != "-" {
+			keep = strings.Split(t[2], ",")
+		}
+		st.Inc("branch.strip")
+		for _, k := range keep {
+			if has(p.Deleted, k) {
+				st.Inc("branch.strip.kept_deleted_key")
+			} else if p.Exists(k) {
+				st.Inc("branch.strip.kept_present_key")
+			} else {
+				st.Inc("branch.strip.kept_absent_key")
+			}
+		}
+		if len(p.Map) > len(keep) {
+			st.Inc("branch.strip.drops_keys")
+		}
+		n.StripAllPropertiesExcept(keep...)
+		return r.withDump("ok")
 	}
 	return "bad-op"
+}
+
+// jsonRoundTrip replaces entity e by what real encoding/json makes of it: a node travels inside a graph.NodeSet
+// (Node.MarshalJSON / NodeSet.UnmarshalJSON), a relationship's Properties by their struct tags (graph.Relationship has
+// no decoder of its own: its Kind is an interface).
+func (r *c12Runner) jsonRoundTrip(e int) string {
+	r.stats.Inc("branch.json")
+	if r.isRel {
+		b, err := json.Marshal(r.r[e].Properties)
+		if err != nil {
+			return "err marshal"
+		}
+		p := new(graph.Properties)
+		if err := json.Unmarshal(b, p); err != nil {
+			return "err unmarshal"
+		}
+		r.r[e].Properties = p
+		return "ok"
+	}
+	n := r.n[e]
+	if n.Properties.Modified != nil || n.Properties.Deleted != nil || len(n.AddedKinds) > 0 || len(n.DeletedKinds) > 0 {
+		r.stats.Inc("branch.json.tracked")
+	}
+	b, err := json.Marshal(graph.NodeSet{n.ID: n})
+	if err != nil {
+		return "err marshal"
+	}
+	var ns graph.NodeSet
+	if err := json.Unmarshal(b, &ns); err != nil {
+		return "err unmarshal"
+	}
+	decoded := ns.Get(n.ID)
+	if decoded == nil || decoded.Properties == nil {
+		return "err lost"
+	}
+	r.n[e] = decoded
+	r.callerKinds[e], r.callerCopy[e] = nil, nil
+	return "ok"
 }
 
 // ---------------------------------------------------------------------------------------------- consumers
@@ -834,15 +938,15 @@ func (c12Suite) Gen(rng *Rng, tier string, w *bufio.Writer, stats *Stats) {
 	full := []string{
 		"set 0 a 2", "set 1 a 3", "set 0 a 0", "set 1 b 4", "setall 0 a:1,c:5", "setall 1 nil", "del 0 a", "del 1 a", "del 0 c", "del 1 b",
 		"gd 0 a 5", "gf 0 c 5 d,a", "clone 0 1", "clone 1 0", "pmerge 0 1", "pmerge 1 0", "pmerge 0 0", "merge 0 1", "merge 1 0",
-		"addk 0 A", "addk 0 C", "addk 1 C,_", "delk 0 A", "delk 1 A", "delk 0 C", "delk 1 B,C", "drv 0",
+		"addk 0 A", "addk 0 C", "addk 1 C,_", "delk 0 A", "delk 1 A", "delk 0 C", "delk 1 B,C", "drv 0", "strip 0 a,c", "json 0",
 	}
 	propsOnly := []string{
 		"set 0 a 2", "set 1 a 3", "set 0 b 0", "setall 1 a:1,c:5", "del 0 a", "del 1 a", "del 1 c",
-		"clone 0 1", "pmerge 0 1", "pmerge 1 0", "merge 1 0",
+		"clone 0 1", "pmerge 0 1", "pmerge 1 0", "merge 1 0", "strip 0 a", "strip 1 b,c",
 	}
 	relOnly := []string{
 		"set 0 a 2", "set 1 a 3", "set 0 b 0", "setall 1 a:1,c:5", "del 0 a", "del 1 a", "del 1 c",
-		"clone 0 1", "rmerge 0 1", "rmerge 1 0", "pmerge 0 1",
+		"clone 0 1", "rmerge 0 1", "rmerge 1 0", "pmerge 0 1", "json 1",
 	}
 	kindsOnly := []string{
 		"addk 0 A", "addk 1 A", "addk 0 C", "addk 1 C", "delk 0 A", "delk 1 A", "delk 0 C", "delk 1 C,B", "merge 0 1", "merge 1 0",
@@ -861,8 +965,21 @@ func (c12Suite) Gen(rng *Rng, tier string, w *bufio.Writer, stats *Stats) {
 			ctorLoads = append(ctorLoads, fmt.Sprintf("%s B %s %s", mc[0], mc[1], ent))
 		}
 	}
-	ctorOps := []string{"set 0 a 2", "del 1 a", "setall 0 -", "setall 1 nil", "gd 0 b 5", "gf 1 c 3 b,a", "keys 0", "len 1", "clone 0 1", "pmerge 1 0"}
+	ctorOps := []string{"set 0 a 2", "del 1 a", "setall 0 -", "setall 1 nil", "gd 0 b 5", "gf 1 c 3 b,a", "keys 0", "len 1", "clone 0 1", "pmerge 1 0", "json 0", "json 1"}
 	exhaustive("ex-ctor-2", ctorLoads, ctorOps, 2)
+	// aliasing: one kinds slice shared by both nodes, headers kept by a caller and re-read after later edits
+	aliasOps := []string{"hold 0", "hold 1", "delk 0 A", "delk 1 B", "addk 0 A", "addk 1 C", "addk 0 C,B", "merge 0 1", "merge 1 0", "json 0", "delk 0 C"}
+	aliasLoads := []string{"a:1 A,B,C as shared", "- A,B as node", "nil A,B,C as prep"}
+	// outside the guards of the kind theorems: duplicate loaded kinds, foreign Kind implementations (`A!`)
+	guardOps := []string{"addk 0 A", "delk 0 A", "delk 1 A", "addk 1 A!", "delk 0 A!", "delk 1 B!", "addk 0 C!", "merge 0 1", "merge 1 0", "json 1"}
+	guardLoads := []string{"- A,B,A as node", "nil A,A as prep", "- A,B as node", "- B,A! as node"}
+	if tier == "thorough" {
+		exhaustive("ex-alias-4", aliasLoads, aliasOps, 4)
+		exhaustive("ex-guard-4", guardLoads, guardOps, 4)
+	} else {
+		exhaustive("ex-alias-3", aliasLoads, aliasOps, 3)
+		exhaustive("ex-guard-3", guardLoads, guardOps, 3)
+	}
 	if tier == "thorough" {
 		exhaustive("ex-mid-4", []string{"a:1,b:2 A,B", "nil -"}, mid, 4)
 		exhaustive("ex-props-5", []string{"a:1,b:2 A"}, propsOnly, 5)
@@ -888,8 +1005,19 @@ func (c12Suite) Gen(rng *Rng, tier string, w *bufio.Writer, stats *Stats) {
 			load = c12PickMap(rng, 4, true)
 			ctor = Pick(rng, []string{"as", "as", "sym", "pm"})
 		}
+		// 1 node case in 5 leaves the guards of the kind theorems: shared kinds slice, duplicate kinds, foreign kinds
+		offGuard := !isRel && rng.Chance(1, 5)
+		foreign := offGuard && rng.Chance(1, 3)
 		if isRel {
 			load += " " + Pick(rng, c12Kinds) + " " + ctor + " " + Pick(rng, []string{"rel", "prel"})
+		} else if offGuard && !foreign {
+			ks := c12PickKinds(rng, false, true)
+			ent := "shared"
+			if rng.Bool() {
+				ks += "," + Pick(rng, c12Kinds) // very likely a duplicate
+				ent = Pick(rng, []string{"node", "prep", "shared"})
+			}
+			load += " " + ks + " " + ctor + " " + ent
 		} else {
 			load += " " + c12PickKinds(rng, false, false) + " " + ctor + " " + Pick(rng, []string{"node", "node", "prep"})
 		}
@@ -943,13 +1071,41 @@ func (c12Suite) Gen(rng *Rng, tier string, w *bufio.Writer, stats *Stats) {
 					ops = append(ops, fmt.Sprintf("len %d", e))
 				}
 			case x < 12:
-				ops = append(ops, fmt.Sprintf("clone %d %d", e, f))
+				if rng.Bool() {
+					ops = append(ops, fmt.Sprintf("json %d", e))
+				} else {
+					ops = append(ops, fmt.Sprintf("clone %d %d", e, f))
+				}
 			case x < 16:
-				ops = append(ops, fmt.Sprintf("addk %d %s", e, c12PickKinds(rng, true, true)))
+				ks := c12PickKinds(rng, true, true)
+				if foreign && rng.Chance(1, 3) {
+					ks = Pick(rng, c12Kinds) + "!"
+				}
+				if rng.Chance(1, 8) {
+					ops = append(ops, fmt.Sprintf("hold %d", e))
+				}
+				ops = append(ops, fmt.Sprintf("addk %d %s", e, ks))
 			case x < 20:
-				ops = append(ops, fmt.Sprintf("delk %d %s", e, c12PickKinds(rng, false, true)))
+				ks := c12PickKinds(rng, false, true)
+				if foreign && rng.Chance(1, 3) {
+					ks = Pick(rng, c12Kinds) + "!"
+				}
+				ops = append(ops, fmt.Sprintf("delk %d %s", e, ks))
 			case x < 21:
-				ops = append(ops, fmt.Sprintf("drv %d", e))
+				if rng.Chance(1, 3) {
+					keep := "-"
+					if rng.Chance(5, 6) {
+						keep = Pick(rng, c12Keys)
+						if rng.Bool() {
+							keep += "," + Pick(rng, c12Keys)
+						}
+					}
+					ops = append(ops, fmt.Sprintf("strip %d %s", e, keep))
+				} else if foreign {
+					ops = append(ops, fmt.Sprintf("keys %d", e)) // the pg kind table cannot map a foreign Kind without a database
+				} else {
+					ops = append(ops, fmt.Sprintf("drv %d", e))
+				}
 			default:
 				switch {
 				case isRel && rng.Chance(2, 3):
